@@ -147,11 +147,11 @@ def c01b(ctx):
             raise Undecided('%s: result of bbox_position_in_image is not unpacked into three names' % qn)
         n_size, n_off, n_bbox = [e.id for e in tgt.elts]
         mq = [x for x in fn.walk() if is_call(x, 'MapQuery') and x.lineno > c.lineno]
-        ok = bool(mq) and unparse(mq[0].args[0]) == n_bbox and unparse(mq[0].args[1]) == n_size
+        ok = bool(mq) and same(mq[0].args[0], n_bbox) and same(mq[0].args[1], n_size)
         ctx.check(ok, '%s:sub-query-uses-sub-box' % fn.short, 'the sub query is MapQuery(<sub bbox>, <sub size>, ...) of that call', fn, mq[0] if mq else c,
                   fail='the sub query does not take bbox (element 2) and size (element 0) of the bbox_position_in_image result')
         si = [x for x in fn.walk() if is_call(x, 'SubImageSource')]
-        ok = bool(si) and unparse(keyword(si[0], 'offset', 2)) == n_off and unparse(keyword(si[0], 'size', 1)) == size_out
+        ok = bool(si) and same(keyword(si[0], 'offset', 2), n_off) and same(keyword(si[0], 'size', 1), size_out)
         ctx.check(ok, '%s:placement-uses-offset' % fn.short, 'SubImageSource(resp, size=<original size>, offset=<offset of that call>)', fn, si[0] if si else c,
                   fail='the sub image is placed with %s / size %s instead of the offset (element 1) and the original query size' % (
                       unparse(keyword(si[0], 'offset', 2)) if si else '?', unparse(keyword(si[0], 'size', 1)) if si else '?'))
